@@ -209,7 +209,7 @@ fn run_wrap_case(i: u64, pattern: u32, k_below: i32, rng: &mut Rng, rep: &mut Re
 
 /// Every subset of {1..4, MAX-3..MAX} parked x counter positions MAX-k, k in 0..=8.
 pub fn wrap(ctx: &Ctx) -> Report {
-    let reps = ctx.n(1, 40);
+    let reps = ctx.n(4, 400);
     let total = 256 * 9 * reps;
     let mut rep = par_cases(ctx, "wrap", total, ctx.secs(60, 600), |i, rng, rep| {
         let pattern = (i % 256) as u32;
@@ -358,7 +358,7 @@ fn run_threads_case(i: u64, rng: &mut Rng, rep: &mut Report, tiny: bool) {
 
 /// Cloned handles on a multi-thread runtime (real OS threads), server releasing replies in bursts.
 pub fn threads(ctx: &Ctx) -> Report {
-    let n = ctx.n(60, 3_000);
+    let n = ctx.n(300, 30_000);
     // each case owns a multi-thread runtime; run few cases at a time so that worker threads get real cores
     let mut c2 = ctx.clone();
     c2.threads = 2;
